@@ -29,7 +29,10 @@ RULE = (
     "marker actions with event type and payload seq, ordered list of fired transitions) must be identical. Thorough tier "
     "additionally re-executes generated cases in fresh subprocesses under 3 PYTHONHASHSEED values. Non-trivial = a run in "
     "which one transition exits or enters states of >=2 sibling regions, or restores deep history with >=2 leaves; "
-    "distinct = distinct (spec, history) hash."
+    "distinct = distinct (spec, history) hash. A small subprocess differential (320 cases x 3 PYTHONHASHSEED values) also "
+    "runs in the quick tier. Campaign actors-repeat: C15's actor command sequences are executed four times in one process; "
+    "with the uuid part of generated actor ids stripped, mailboxes, statuses, registry and parent context must agree after "
+    "every command (generated ids never decide who is selected)."
 )
 ASSUMPTIONS = [
     "a salted hash stands for a heap layout: set iteration order of StateNode objects is the only address-dependent "
@@ -46,10 +49,22 @@ def _profiles():
 
 
 def plan(tier):
-    return [{"name": "main", "examples": 2000 if tier == "quick" else 60000}]
+    return [{"name": "main", "examples": 2000 if tier == "quick" else 60000},
+            {"name": "actors-repeat", "examples": 250 if tier == "quick" else 6000, "shards": 8}]
 
 
 def strategy(tier, campaign):
+    if campaign == "actors-repeat":
+        from . import c15
+
+        def shape(c):
+            cmds = list(c["cmds"])
+            if len(cmds) % 2 == 0:
+                # several auto-id children of one service, then an address that matches all of them
+                cmds = [["SPAWN_AUTO"], ["SPAWN_AUTO"]] + cmds[:8] + [["SEND", "kid"], ["STOPC", "kid"], ["SEND", "kid"]]
+            return dict(c, cmds=cmds, kind="actors-repeat")
+
+        return c15.strategy(tier, "main").map(shape)
     main, probes = _profiles()
     prof = gen.profile(**main)
     return st.fixed_dictionaries({
@@ -137,7 +152,53 @@ def _nontrivial(tree: Tree, idx: Index, run) -> bool:
     return False
 
 
+def _check_actors_repeat(case) -> CaseResult:
+    """Generated identifiers (actor ids with a uuid) never influence selection: the same actor command
+    sequence (C15's generic parent machine) is executed four times in this process; after every command
+    the observable state - per actor: id with the uuid stripped, mailbox, status, children; the system
+    registry; what the parent got back - must be the same in all four runs."""
+    from . import c15
+
+    res = CaseResult()
+    res.sample = {"engine": case["engine"], "cmds": case["cmds"]}
+
+    def norm_id(i):
+        parts = i.split(":")
+        return ":".join(parts[:2]) + ":<auto>" if len(parts) == 3 and len(parts[2]) > 20 else i
+
+    def sig(obs):
+        out = []
+        for o in obs:
+            # in the order the snapshot lists them (spawn order): *which* auto-id actor got a message matters
+            actors = [(norm_id(a), json.dumps(v["inbox"]), v["status"], len(v["children"])) for a, v in o["actors"].items()]
+            out.append((actors, sorted((k, norm_id(v)) for k, v in o["live_system"].items()), o["fromkid"]))
+        return json.dumps(out, sort_keys=True, default=repr)
+
+    try:
+        sigs = []
+        for _ in range(4):
+            obs, _extra = c15.run(case)
+            sigs.append(sig(obs))
+            res.extra_evals += 1
+    except Exception as e:  # noqa
+        res.inconclusive = "run-raised:" + type(e).__name__
+        return res
+    res.extra_evals -= 1
+    autos = sum(1 for c in case["cmds"] if c[0] == "SPAWN_AUTO")
+    res.nontrivial = autos >= 2
+    res.classes.append("actors-repeat")
+    if len(set(sigs)) > 1:
+        k = next(i for i in range(1, 4) if sigs[i] != sigs[0])
+        a, b = json.loads(sigs[0]), json.loads(sigs[k])
+        step = next((i for i, (x, y) in enumerate(zip(a, b)) if x != y), -1)
+        res.violate(f"{case['engine']}|repeated-runs-differ|actors", {"step": step, "cmd": case["cmds"][step] if 0 <= step < len(case["cmds"]) else None,
+                                                                     "run0": a[step] if step >= 0 else None, "run%d" % k: b[step] if step >= 0 else None})
+    return res
+
+
 def check_case(case) -> CaseResult:
+    if case.get("kind") == "actors-repeat":
+        return _check_actors_repeat(case)
     res = CaseResult()
     spec, history, salts = case["spec"], case["history"], case["salts"]
     tree = Tree(spec)
@@ -218,10 +279,11 @@ def _child_main(path):
 
 
 def extra_run(tier, seed, jobs):
-    if tier != "thorough":
-        return None
+    # hash seeds are per process: sets of *strings* (ids, keys) only change their iteration order
+    # in another process, which the salted StateNode hash cannot imitate - so a (small) subprocess
+    # differential runs in the quick tier as well
     t0 = time.time()
-    n = 2000
+    n = 2000 if tier == "thorough" else 320
     cases = _collect_cases(n, seed * 7919 + 13)
     tmp = tempfile.mkdtemp(prefix="xsm-c16-", dir=os.environ.get("TMPDIR", "/var/tmp"))
     viol = []
